@@ -8,7 +8,7 @@ PID = 'C02'
 HERE = os.path.dirname(os.path.abspath(__file__))
 OUT = os.path.join(vlib.BUILD, 'c02')
 VOFF = r'(const )?std::vector<(unsigned long|Dwarf_Off)(, std::allocator<(unsigned long|Dwarf_Off)>)?>'
-OPAIR = r'(const )?std::pair<unsigned long, unsigned long>'
+OPAIR = r'(const )?std::pair<(unsigned long|Dwarf_Off), (unsigned long|Dwarf_Off)>'
 VPAIR = r'(const )?(std::vector<' + OPAIR + r'(, std::allocator<' + OPAIR + r'>)?>|parent_cache::unit_cache_t)'
 IT_CFG = {
     'names': {'_ZN17all_dies_iteratorppEv': 'all_dies_iterator_preinc', '_ZN17all_dies_iteratorC1EP5Dwarf': 'all_dies_iterator_ctor_dw',
